@@ -1,5 +1,5 @@
 use swc_core::{
-    common::{Span, DUMMY_SP},
+    common::{errors::HANDLER, Span, Spanned, DUMMY_SP},
     ecma::{
         ast::*,
         utils::{private_ident, quote_ident, quote_str},
@@ -267,8 +267,18 @@ pub(crate) fn decouple_v_models(
     elems
         .into_iter()
         .filter_map(|elem| match elem {
-            Some(ExprOrSpread { spread: None, expr }) => expr.array(),
-            _ => None,
+            Some(ExprOrSpread { spread: None, expr }) if expr.is_array() => expr.array(),
+            // (a hole has nothing to evaluate; anything else would be dropped unevaluated)
+            Some(elem) => {
+                HANDLER.with(|handler| {
+                    handler.span_err(
+                        elem.span(),
+                        "you should pass a Two-dimensional Arrays to v-models",
+                    )
+                });
+                None
+            }
+            None => None,
         })
         .map(|ArrayLit { elems, .. }| {
             // `[target, "arg", [modifiers]]` is the array form of a single `v-model` as it stands
